@@ -23,6 +23,11 @@ def c19_faults():
     ok_decl = '%token <val> NUM\n%type <val> e\n%start e\n'
     F = []
     F.append(('lex_stray_char', 'lex', yfile('%token <val> NUM @\n%type <val> e\n', "e : NUM { $$ = $1 } ;\n")))
+    # a character that starts no token, in the rules section, at a point where the text before it is a complete grammar
+    F.append(('lex_stray_paren_in_rules', 'lex', yfile(ok_decl, "e : NUM { $$ = $1 } | ( e ) { $$ = $2 } ;\n")))
+    F.append(('lex_stray_comma_in_rules', 'lex', yfile(ok_decl, "e : NUM { $$ = $1 } , ;\n")))
+    F.append(('lex_stray_plus_in_rules', 'lex', yfile(ok_decl, "e : NUM { $$ = $1 }\n  | e + NUM { $$ = $1 + $3 } ;\n")))
+    F.append(('lex_stray_at_after_rules', 'lex', yfile(ok_decl, "e : NUM { $$ = $1 } ;\n@\n")))
     F.append(('lex_unclosed_comment', 'lex', yfile('%token <val> NUM /* never closed\n', "e : NUM ;\n")))
     F.append(('lex_unbalanced_action', 'lex', yfile(ok_decl, "e : NUM { $$ = $1 ;\n")))
     F.append(('lex_bad_char_literal', 'lex', yfile(ok_decl, "e : 'ab' NUM ;\n")))
@@ -136,6 +141,11 @@ def run_C19(ctx):
                 ctx.evaluations += 1
                 ctx.nontrivial.add((name, tn))
                 case = dict(fault=name, target=tn, grammar_text=text, grammar_sha=vlib.sha(text), exit=rc, stderr=err)
+                if rc == 0 and (after is None or not after.rstrip().endswith('// EPILOGUE-END-MARKER')):
+                    ctx.violation('counterexample', '`yaccgo %s` on the faulty input %s exits 0 and leaves %s at the output path: neither the old file nor a complete output ending with the epilogue'
+                                  % (' '.join(args), name, 'nothing' if after is None else 'a %d-byte file without the epilogue' % len(after)),
+                                  dict(case, expected='failure with the file untouched, or a complete output', observed=(after or '')[-200:]), interface='I9')
+                    continue
                 if rc == 0:
                     ctx.violation('no-failing-input-found', 'C19 harness: the input %s was expected to be rejected (stage %s) but `yaccgo %s` exits 0; the fault list no longer matches the implementation'
                                   % (name, stage, ' '.join(args)), case, interface='I9')
